@@ -21,6 +21,41 @@ Definition c01_vec_inplace_self (f : R -> R -> R) (x : list R) : list R :=
    (value of the result, value of the viewed scalar x afterwards) *)
 Definition c01_view_binop (f : R -> R -> R) (x y : R) : R * R := let z := f x y in (z, z).
 
+(* ------------------------------------------------------------------ scalar views as reference cells
+   A ScalarMatrixView / ScalarVectorView is the ADDRESS of a scalar in a store `st`; copying a view copies the address (the copy is an
+   alias), AutonomousValue<View> is a FieldMatrix<K,1,1> / FieldVector<K,1> holding the VALUE.  Owning 1x1 objects are cells of their own.
+   a = cell of the receiver, m = cell of the factor (m = a: the factor is a view of the receiver's scalar). *)
+Local Notation zero := (c01_O K).
+Local Notation add := (c01_add K).
+Local Notation mul := (c01_mul K).
+(* DenseMatrix::leftmultiply / rightmultiply as written up to commit de29db7: C = copy of *this; this[0][0] = 0; this[0][0] += M[0][0]*C[0][0].
+   copy_alias = true: the copy C is declared with the view type itself (`const MAT C(asImp())`), i.e. an alias of the receiver's cell;
+   copy_alias = false: AutonomousValue<MAT>, the value *)
+Definition c01_cell_leftmultiply_literal (copy_alias : bool) (st : list R) (a m : nat) : list R :=
+  let c := c01_at K st a in
+  let st1 := c01_upd st a zero in
+  let cv := if copy_alias then c01_at K st1 a else c in
+  c01_upd st1 a (add (c01_at K st1 a) (mul (c01_at K st1 m) cv)).
+Definition c01_cell_rightmultiply_literal (copy_alias : bool) (st : list R) (a m : nat) : list R :=
+  let c := c01_at K st a in
+  let st1 := c01_upd st a zero in
+  let cv := if copy_alias then c01_at K st1 a else c in
+  c01_upd st1 a (add (c01_at K st1 a) (mul cv (c01_at K st1 m))).
+(* after fix C01-6: accumulate into the autonomous copy, assign it back: C[0][0] = 0; C[0][0] += M[0][0]*this[0][0]; *this = C *)
+Definition c01_cell_leftmultiply (st : list R) (a m : nat) : list R :=
+  c01_upd st a (add zero (mul (c01_at K st m) (c01_at K st a))).
+Definition c01_cell_rightmultiply (st : list R) (a m : nat) : list R :=
+  c01_upd st a (add zero (mul (c01_at K st a) (c01_at K st m))).
+(* a op= b on cells (+=, -=, axpy: f combines the receiver's value with the argument's), elementwise: aliasing is harmless *)
+Definition c01_cell_inplace (f : R -> R -> R) (st : list R) (a m : nat) : list R :=
+  c01_upd st a (f (c01_at K st a) (c01_at K st m)).
+(* unary minus of a view as written: `result = asImp()` is an alias, result[0] = -this[0]: (returned value, store afterwards) *)
+Definition c01_cell_neg_literal (st : list R) (a : nat) : R * list R :=
+  let st1 := c01_upd st a (c01_opp K (c01_at K st a)) in (c01_at K st1 a, st1).
+(* after fix C01-7 the results of + - and unary - are autonomous values: the store is not touched *)
+Definition c01_cell_neg (st : list R) (a : nat) : R * list R := (c01_opp K (c01_at K st a), st).
+Definition c01_cell_binop (f : R -> R -> R) (st : list R) (a m : nat) : R * list R := (f (c01_at K st a) (c01_at K st m), st).
+
 (* DynamicVector::resize(n, k) (std::vector semantics), DynamicMatrix::resize(r, c, v) (all entries lost) *)
 Definition c01_resize (x : list R) (n : nat) (k : R) : list R := firstn n x ++ repeat k (n - length x).
 Definition c01_mresize (r c : nat) (v : R) : list (list R) := repeat (repeat v c) r.
